@@ -248,8 +248,11 @@ def read_classes():
     return [p for p in PARTS if p[0].name in ("JSON", "BufferedJSON", "MemoryBufferedJSON", "Redis")]
 
 
+HIST4 = False  # set by hist4 (thorough): 4-token histories on four classes
+
+
 def hist_classes():
-    if hlib.TIER == "thorough":
+    if hlib.TIER == "thorough" and not HIST4:
         return PARTS
     return [(hlib.FAM["JSON"], "dict"), (hlib.FAM["JSON"], "list"), (hlib.FAM["BufferedJSON"], "dict"), (hlib.FAM["Redis"], "dict")]
 
@@ -265,7 +268,7 @@ def hist(tk: int, t1: int, t2: int, t3: int, x: int, y: int, z: int, v: int) -> 
     t0 = (hlib.PART // len(classes)) % len(TOKENS)  # first token fixed by the partition
     tkind = pick(WHICH, tk)
     toks = [TOKENS[t0], pick(TOKENS, t1), pick(TOKENS, t2)]
-    if hlib.TIER == "thorough":
+    if HIST4:
         toks.append(pick(TOKENS, t3))
     if tkind is None or None in toks:
         return finish(False, True)
@@ -313,6 +316,18 @@ def hist(tk: int, t1: int, t2: int, t3: int, x: int, y: int, z: int, v: int) -> 
     return finish(True, True)
 
 
+def hist4(tk: int, t1: int, t2: int, t3: int, x: int, y: int, z: int, v: int) -> bool:
+    """Four-token histories (thorough tier, four classes).
+    post: _
+    """
+    global HIST4
+    HIST4 = True
+    try:
+        return hist(tk, t1, t2, t3, x, y, z, v)
+    finally:
+        HIST4 = False
+
+
 def plan(tier):
     if tier == "quick":
         return [
@@ -327,7 +342,8 @@ def plan(tier):
         {"fn": "reads", "nparts": len(PARTS), "timeout": 1500},
         {"fn": "eqsync", "nparts": len(PARTS), "timeout": 1500},
         {"fn": "faultread", "nparts": 2 * len(JSON_PARTS), "timeout": 1500},
-        {"fn": "hist", "nparts": len(PARTS) * len(ALL_TOKENS), "timeout": 1500},
+        {"fn": "hist", "nparts": len(PARTS) * len(ALL_TOKENS), "timeout": 900},
+        {"fn": "hist4", "nparts": 4 * len(ALL_TOKENS), "timeout": 900},
     ]
 
 
@@ -376,7 +392,7 @@ FUNCTIONS = [
 ]
 BOUNDS = {
     "quick": {"classes": 18, "kind_pairs": "8 x 8 (leaf, null, {}, {p}, {p,q}, [], [x], [x,y]) at the probed position + a sibling leaf that may change", "writers": ["outside", "second object"], "reads": "18 dict + 18 list read operations on root and retained child", "kind_pairs_note": "full 8x8 and both writers for the 3 non-attr JSON families; leaf/null/{p}/[x] and the outside writer for the other 12 classes", "reads_classes": 8, "histories": "3 tokens over 6, 4 classes"},
-    "thorough": {"classes": 18, "histories": "4 tokens over 8, 18 classes"},
+    "thorough": {"classes": 18, "histories": "3 tokens over 8 on 18 classes; 4 tokens over 8 on 4 classes"},
 }
 ASSUMPTIONS = [
     "environment models of vf/env_model.py (file store, structural JSON codec, fake Redis/MongoDB/Zarr)",
